@@ -13,3 +13,11 @@ add("C18", "SEQ", "model_checking", "explicit-state BFS over operation sequences
 add("C07", "SEQ", "model_checking", "explicit-state BFS over request histories on the implementation (bounded depth), model comparison in every state",
     "All histories up to the stated depth of artifact pushes (by digest, by tag, tag overwrite), deletes by tag and digest, subject delete / re-push, restart and a cache-warming filtered read are explored on both stores and several Referrer.Limit values; in every distinct state, for every subject and filter, the union of the Link chain (each request issued twice) is compared with the model, plus page sizes, OCI-Filters-Applied and continuation links replayed against other subjects.",
     TRUSTED, "DESIGN.md section 4 C07")
+
+add("C01", "SEQ", "model_checking", "explicit-state BFS over upload-protocol histories on the implementation (bounded depth), model-free hash invariant in every state",
+    "All histories up to the stated depth over monolithic uploads, sessions with chunked PATCH/PUT under every algorithm (incl. algorithm changes at creation and at completion), cross-repository mounts and manifest pushes by tag/digest/?digest= with right and wrong digests are explored on both stores; in every distinct state every digest of the universe is fetched (blob and manifest endpoints, both repositories, tags) and every stored blob is re-hashed against its name; each mismatching upload must be refused with a 4xx.",
+    TRUSTED, "DESIGN.md section 4 C01")
+
+add("C02", "SEQ", "model_checking", "explicit-state BFS over push/delete/restart histories on the implementation (bounded depth), model comparison in every state",
+    "All histories up to the stated depth of blob and manifest pushes (four manifest media types, by tag and digest, bodies at and beyond the manifest limit with known and unknown length), re-pushes, tag moves, deletes and restart are explored on both stores; in every distinct state every acknowledged, undeleted item is read by digest and tag with GET and HEAD, under all 15 Accept subsets containing its type, and every byte range of a 4 byte blob is compared.",
+    TRUSTED, "DESIGN.md section 4 C02")
